@@ -221,10 +221,79 @@ def classify(e, tb):
     return f"{type(e).__name__}:{where}"
 
 
+def import_layouts(ctx, parse, errors):
+    """Import graphs that need several files on disk (no single input text reaches them): cycles across directories, through dot
+    segments, symbolic links and absolute paths; self imports; diamonds reached under different spellings; imports of directories and
+    of files that vanish.  parse(main) must return or raise ParserError/OSError - a RecursionError is an internal exception."""
+    res = ctx.res
+    base = ctx.casedir("layouts")
+    M = "message Own%d { bool a = 1 }\n"
+
+    def layout(name, files, main, links=()):
+        d = os.path.join(base, name)
+        for rel, text in files.items():
+            os.makedirs(os.path.dirname(os.path.join(d, rel)) or d, exist_ok=True)
+            with open(os.path.join(d, rel), "w") as fh:
+                fh.write(text.replace("@ABS@", os.path.abspath(d)))
+        for src, dst in links:
+            os.symlink(src, os.path.join(d, dst))
+        return os.path.join(d, main)
+
+    cases = [
+        ("cycle-across-directory", {"root.bitproto": 'proto root\nimport "sub/b.bitproto"\n' + M % 1, "sub/b.bitproto": 'proto b\nimport "../root.bitproto"\n' + M % 2}, "root.bitproto", ()),
+        ("self-import-dot", {"selfi.bitproto": 'proto selfi\nimport "./selfi.bitproto"\n' + M % 1}, "selfi.bitproto", ()),
+        ("self-import-updown", {"selfu.bitproto": 'proto selfu\nimport "sub/../selfu.bitproto"\n' + M % 1, "sub/keep.bitproto": "proto keep\n"}, "selfu.bitproto", ()),
+        ("cycle-three-files-two-directories", {"a.bitproto": 'proto a\nimport "x/b.bitproto"\n' + M % 1, "x/b.bitproto": 'proto b\nimport "./y/../c.bitproto"\n' + M % 2,
+                                               "x/c.bitproto": 'proto c\nimport "../a.bitproto"\n' + M % 3, "x/y/keep.bitproto": "proto keep\n"}, "a.bitproto", ()),
+        ("cycle-through-symlink", {"root.bitproto": 'proto root\nimport "link.bitproto"\n' + M % 1}, "root.bitproto", (("root.bitproto", "link.bitproto"),)),
+        ("cycle-through-symlinked-directory", {"root.bitproto": 'proto root\nimport "loop/root.bitproto"\n' + M % 1}, "root.bitproto", ((".", "loop"),)),
+        ("cycle-absolute-path", {"root.bitproto": 'proto root\nimport "@ABS@/b.bitproto"\n' + M % 1, "b.bitproto": 'proto b\nimport "@ABS@/./root.bitproto"\n' + M % 2}, "root.bitproto", ()),
+        ("cycle-started-from-subdirectory-main", {"sub/main.bitproto": 'proto main\nimport "../top.bitproto"\n' + M % 1, "top.bitproto": 'proto top\nimport "sub/main.bitproto"\n' + M % 2}, "sub/main.bitproto", ()),
+        ("diamond-two-spellings", {"root.bitproto": 'proto root\nimport l "left.bitproto"\nimport r "right.bitproto"\nmessage Own1 { l.Own2 a = 1; r.Own3 b = 2 }\n',
+                                   "left.bitproto": 'proto left\nimport "./shared.bitproto"\nmessage Own2 { shared.Own4 s = 1 }\n',
+                                   "right.bitproto": 'proto right\nimport "sub/../shared.bitproto"\nmessage Own3 { shared.Own4 s = 1 }\n',
+                                   "shared.bitproto": "proto shared\n" + M % 4, "sub/keep.bitproto": "proto keep\n"}, "root.bitproto", ()),
+        ("import-a-directory", {"root.bitproto": 'proto root\nimport "sub"\n' + M % 1, "sub/keep.bitproto": "proto keep\n"}, "root.bitproto", ()),
+        ("import-dangling-symlink", {"root.bitproto": 'proto root\nimport "gone.bitproto"\n' + M % 1}, "root.bitproto", (("nowhere.bitproto", "gone.bitproto"),)),
+    ]
+    for name, files, main, links in cases:
+        wit = {"part": "import-layouts", "layout": name, "files": files}
+        try:
+            path = layout(name, files, main, links)
+        except OSError as e:
+            res.inconclusive.append(f"could not create import layout {name}: {e}")
+            continue
+        for how in ("absolute", "relative"):
+            res.count("import_layouts_parsed")
+            cwd = os.getcwd()
+            try:
+                if how == "relative":
+                    os.chdir(os.path.dirname(path))
+                with sut_compiler.quiet_stderr():
+                    parse(os.path.basename(path) if how == "relative" else path)
+                res.observe("import_layout_outcomes", f"{name}: accepted")
+            except errors.ParserError as e:
+                res.observe("import_layout_outcomes", f"{name}: {type(e).__name__}")
+            except OSError as e:
+                res.observe("import_layout_outcomes", f"{name}: OSError")
+            except BaseException as e:
+                tb = traceback.format_exc()
+                res.violation("parse-internal:" + classify(e, tb), f"import layout {name} ({how} main path): parse escaped with {type(e).__name__}: {str(e)[:160]}",
+                              {**wit, "how": how, "traceback": tb[-1500:]})
+            finally:
+                os.chdir(cwd)
+    shutil.rmtree(base, ignore_errors=True)
+
+
 def worker(ctx):
     res = ctx.res
     contracts.install()
     parse, parse_string, render, lint, errors = sut_compiler.bitproto_api()
+    if ctx.replay is None or ctx.replay.get("witness", {}).get("part") == "import-layouts":
+        if ctx.shard == 0 or ctx.replay is not None:
+            import_layouts(ctx, parse, errors)
+        if ctx.replay is not None:
+            return
     if ctx.quick:
         n_inputs = ctx.per_shard(48000)
         ctx.set_budget(170)
